@@ -121,12 +121,38 @@ def ops(tier, cfg):
             for nn in (3, 5):
                 L.append((f"lu[{t}|{nn}]", t, (nn, nn), t, (1,), t, (nn, nn), f"Tensor<{CTYPE[t]},{nn},{nn}> l, u; lu(a, l, u); r = l + u;", True, False))
                 L.append((f"qr[{t}|{nn}]", t, (nn, nn), t, (1,), t, (nn, nn), f"Tensor<{CTYPE[t]},{nn},{nn}> q, rr; qr(a, q, rr); r = q + rr;", True, False))
+            # pivoted strategies on a matrix whose dominant entries sit on the anti-diagonal: every row moves
+            for nn in (3, 5):
+                ct = CTYPE[t]
+                L.append((f"lu_piv_vec[{t}|{nn}]", t, (nn, nn), t, (1,), t, (nn, nn),
+                          f"Tensor<{ct},{nn},{nn}> l, u; Tensor<size_t,{nn}> p; lu<LUCompType::BlockLUPiv>(a, l, u, p); r = l + u; r(0,0) += {ct}(p({nn - 1}));", 2, False))
+                L.append((f"lu_piv_mat[{t}|{nn}]", t, (nn, nn), t, (1,), t, (nn, nn),
+                          f"Tensor<{ct},{nn},{nn}> l, u, p; lu<LUCompType::SimpleLUPiv>(a, l, u, p); r = l + u + p;", 2, False))
+                L.append((f"qr_piv[{t}|{nn}]", t, (nn, nn), t, (1,), t, (nn, nn),
+                          f"Tensor<{ct},{nn},{nn}> q, rr; Tensor<size_t,{nn}> p; qr<QRCompType::MGSRPiv>(a, q, rr, p); r = q + rr;", 2, False))
+                # the same with an unevaluated argument: these overloads permute their own temporary in place
+                L.append((f"lu_piv_vec_expr[{t}|{nn}]", t, (nn, nn), t, (1,), t, (nn, nn),
+                          f"Tensor<{ct},{nn},{nn}> l, u; Tensor<size_t,{nn}> p; lu<LUCompType::BlockLUPiv>(a * {ct}(1), l, u, p); r = l + u;", 2, False))
+                L.append((f"lu_piv_mat_expr[{t}|{nn}]", t, (nn, nn), t, (1,), t, (nn, nn),
+                          f"Tensor<{ct},{nn},{nn}> l, u, p; lu<LUCompType::BlockLUPiv>(a * {ct}(1), l, u, p); r = l + u + p;", 2, False))
+                L.append((f"slu_piv_vec_expr[{t}|{nn}]", t, (nn, nn), t, (1,), t, (nn, nn),
+                          f"Tensor<{ct},{nn},{nn}> l, u; Tensor<size_t,{nn}> p; lu<LUCompType::SimpleLUPiv>(a * {ct}(1), l, u, p); r = l + u;", 2, False))
+                L.append((f"slu_piv_mat_expr[{t}|{nn}]", t, (nn, nn), t, (1,), t, (nn, nn),
+                          f"Tensor<{ct},{nn},{nn}> l, u, p; lu<LUCompType::SimpleLUPiv>(a * {ct}(1), l, u, p); r = l + u + p;", 2, False))
+                L.append((f"qr_piv_expr[{t}|{nn}]", t, (nn, nn), t, (1,), t, (nn, nn),
+                          f"Tensor<{ct},{nn},{nn}> q, rr; Tensor<size_t,{nn}> p; qr<QRCompType::MGSRPiv>(a * {ct}(1), q, rr, p); r = q + rr;", 2, False))
+                L.append((f"qr_pivmat_expr[{t}|{nn}]", t, (nn, nn), t, (1,), t, (nn, nn),
+                          f"Tensor<{ct},{nn},{nn}> q, rr, p; qr<QRCompType::MGSRPiv>(a * {ct}(1), q, rr, p); r = q + rr + p;", 2, False))
+                L.append((f"inverse_piv[{t}|{nn}]", t, (nn, nn), t, (1,), t, (nn, nn), "r = inverse<InvCompType::SimpleInvPiv>(a);", 2, False))
+                L.append((f"inverse_lupiv[{t}|{nn}]", t, (nn, nn), t, (1,), t, (nn, nn), "r = inverse<InvCompType::BlockLUPiv>(a);", 2, False))
+                L.append((f"solve_piv[{t}|{nn}]", t, (nn, nn), t, (nn,), t, (nn,), "r = solve<SolveCompType::BlockLUPiv>(a, b);", 2, False))
+                L.append((f"det_lu[{t}|{nn}]", t, (nn, nn), t, (1,), t, (1,), "r(0) = determinant<DetCompType::LU>(a);", 2, False))
             L.append((f"norm2d[{t}|3x{W + 1}]", t, (3, W + 1), t, (1,), t, (1,), "r(0) = norm(a);", False, True))
     return L
 
 
 def _own(name, ta, da, tb, db, tr, dr, stmt, sq):
-    body = (f"struct K {{ using TA = {T(ta, *da)}; using TB = {T(tb, *db)}; using TR = {T(tr, *dr)}; enum {{ square_dominant = {1 if sq else 0} }}; "
+    body = (f"struct K {{ using TA = {T(ta, *da)}; using TB = {T(tb, *db)}; using TR = {T(tr, *dr)}; enum {{ square_dominant = {int(sq)} }}; "
             f"static void call(const TA& a, const TB& b, TR& r) {{ using namespace Fastor; {stmt} }} }}; c07::Own<K>::go(fx);")
     return Case(f"C07/own.{name}", body, route="own." + name.split("[")[0], cost=0.3)
 
@@ -134,7 +160,7 @@ def _own(name, ta, da, tb, db, tr, dr, stmt, sq):
 def _map(name, ta, da, tb, db, tr, dr, stmt, sq):
     def M(t, d):
         return f"Fastor::TensorMap<{CTYPE[t]}{''.join(',' + str(x) for x in d)}>"
-    body = (f"struct K {{ using EA = {CTYPE[ta]}; using EB = {CTYPE[tb]}; using ER = {CTYPE[tr]}; enum : size_t {{ NA = {prod(da)}, NB = {prod(db)}, NR = {prod(dr)} }}; enum {{ square_dominant = {1 if sq else 0} }}; "
+    body = (f"struct K {{ using EA = {CTYPE[ta]}; using EB = {CTYPE[tb]}; using ER = {CTYPE[tr]}; enum : size_t {{ NA = {prod(da)}, NB = {prod(db)}, NR = {prod(dr)} }}; enum {{ square_dominant = {int(sq)} }}; "
             f"static void call(EA* pa, EB* pb, ER* pr) {{ using namespace Fastor; {M(ta, da)} a(pa); {M(tb, db)} b(pb); {M(tr, dr)} r(pr); {stmt} }} }}; c07::Map<K>::go(fx);")
     return Case(f"C07/map.{name}", body, route="map." + name.split("[")[0], cost=0.3)
 
